@@ -52,12 +52,12 @@ func fieldUses(c *cx, cls string) []fieldUse {
 // summaries and typestate of the lock-owning closer types); each entry is
 // justified by a separate obligation (call-site locksets / constructor shape).
 var lockEntry = map[string]eng.LockSet{
-	"xmpp.(*Session).closeSession":          {"xmpp.Session.out": 'W', "xmpp.Session.stateMutex": 'W'},
-	"xmpp.(*lockWriteCloser).EncodeToken":   {"xmpp.Session.out": 'W'},
-	"xmpp.(*lockWriteCloser).Flush":         {"xmpp.Session.out": 'W'},
-	"xmpp.(*lockWriteCloser).Close":         {"xmpp.Session.out": 'W'},
-	"xmpp.(*lockReadCloser).Token":          {"xmpp.Session.in": 'W'},
-	"xmpp.(*lockReadCloser).Close":          {"xmpp.Session.in": 'W'},
+	"xmpp.(*Session).closeSession":        {"xmpp.Session.out": 'W', "xmpp.Session.stateMutex": 'W'},
+	"xmpp.(*lockWriteCloser).EncodeToken": {"xmpp.Session.out": 'W'},
+	"xmpp.(*lockWriteCloser).Flush":       {"xmpp.Session.out": 'W'},
+	"xmpp.(*lockWriteCloser).Close":       {"xmpp.Session.out": 'W'},
+	"xmpp.(*lockReadCloser).Token":        {"xmpp.Session.in": 'W'},
+	"xmpp.(*lockReadCloser).Close":        {"xmpp.Session.in": 'W'},
 }
 
 // lockDiscipline checks rule L(field class, lock class) over every use outside
